@@ -73,13 +73,17 @@ PROPS["C14"] = dict(
     schedule_dependent=True,
     subs=[
         dict(name="mvs", test="TestMVS", quick=6000, thorough=200000, shards=12),
-        dict(name="semver", test="TestSemver", quick=30000, thorough=1000000, shards=4),
+        dict(name="semver", test="TestSemver", quick=40000, thorough=1000000, shards=4),
+        dict(name="modreq", test="TestModReq", quick=1500, thorough=60000, shards=4),
+        dict(name="par", test="TestPar", quick=4000, thorough=150000, shards=4),
     ],
     technique="rapid-generated requirement graphs against a brute-force fixpoint model, with permuted requirement lists and perturbed schedules; SemVer triples against an own SemVer 2.0 implementation and golang.org/x/mod/semver",
     level_text="exploration: random graphs up to 8 modules x 4 versions (diamonds, cycles, requirements on the main module, unloadable modules), each run 5 times with permuted requirement lists and yield/sleep perturbation inside Required; BuildList, Req (reproduces + minimal), the incremental Graph API, Upgrade and Downgrade are compared with a closure-and-maximum model. SemVer: validity, accessors, comparison, antisymmetry, transitivity and Sort over valid and near-valid spellings.",
     level_note="trusted: the model's closure/maximum computation and the reference SemVer comparator (written from semver.org); the Go scheduler is perturbed, not owned",
     rule="mvs: graph = requirement lists drawn over (2-8 modules) x (1-4 versions from a pool with pre-releases, numeric vs alphanumeric identifiers); non-trivial = some module is reached at two or more versions. "
-         "semver: triples from a generator of valid and near-valid versions (leading zeros, empty/odd identifiers, huge numbers, build metadata, shorthands, missing v); non-trivial = at least two valid versions, one with a pre-release.",
+         "semver: triples from a generator of valid and near-valid versions (leading zeros, empty/odd identifiers, huge numbers, build metadata, shorthands, missing v); non-trivial = at least two valid versions, one with a pre-release; half of the triples are neighbours (one component of the previous version replaced, dropped or appended, with identifiers around 2^64 and 10^20). "
+         "modreq: main module with 1-7 roots over module files served by an in-memory registry with latency, loaded through modrequirements.Requirements.Graph under GOMAXPROCS 1/2/3/8 (the width of its par.Queue); the pruned graph (roots + their direct requirements) must be fully loaded and select the maxima; non-trivial = a module required at two versions. "
+         "par: par.Queue of width 1-4 with nested adds (Idle only after every task finished, never more than width active), par.Work (each item once), par.Cache (function once per key).",
     assumptions=["schedule perturbation (Gosched/sleep in Required) explores interleavings of the 10 traversal goroutines only probabilistically"],
 )
 
